@@ -5,6 +5,8 @@
 // product: the parsers do not share a flag/option name.
 // Inputs: names are symbolic strings (short: 1 byte, long: 2 bytes), flag values symbolic.
 // Outside the claim: message text of the exceptions; names longer than 2 bytes; check_sub_command_names.
+// FINDING (unchanged tree a52949b, natively reproduced, see C03_findings.patch): h_ctor_flag_string fails - the flag
+// constructor compares its moved-from parameters, so flag<Label,std::string>{"on","off"} throws options::exception.
 //@property C03
 //@unity options
 //@models rbtree
